@@ -48,7 +48,7 @@ theorem OrderOK.lvlOf_lt {t : Tbl} (h : OrderOK t) {s : String} (hs : t.vars.con
   rw [lvlOf_eq hj]; exact h.lt s j hj
 
 /-- two name assignments that agree on the declared names give the same value -/
-theorem denN_congr {t : Tbl} (hw : WF t) (hO : OrderOK t) (u : Int) (hu : t.Mem u) (σ τ : AsgN)
+theorem denN_congr_decl {t : Tbl} (hw : WF t) (hO : OrderOK t) (u : Int) (hu : t.Mem u) (σ τ : AsgN)
     (h : ∀ s, t.vars.contains s = true → σ s = τ s) : denN t u σ = denN t u τ := by
   unfold denN
   apply den_agree_ge t hw u hu
@@ -107,13 +107,13 @@ theorem ite_transparent (ext : Nat → Nat) (hS : SiftContract ext) (m : Mgr) (h
 /-! ### `var` -/
 
 /-- the body of `BDD.var` -/
-def varBody (name : String) : M Int := do
+def dynVarBody (name : String) : M Int := do
   let m ← M.get
   match m.tbl.vars[name]? with
   | none => M.throw .value
   | some j => findOrAdd j (-1) 1
 
-theorem var_eq (name : String) : var name = tryToReorder (varBody name) := rfl
+theorem var_eq_dynVarBody (name : String) : var name = tryToReorder (dynVarBody name) := rfl
 
 /-- documented result of `var(name)`: the projection on that name -/
 def VarDoc (name : String) (_t : Tbl) (r : Int) (t' : Tbl) : Prop :=
@@ -122,13 +122,13 @@ def VarDoc (name : String) (_t : Tbl) (r : Int) (t' : Tbl) : Prop :=
 theorem var_transparent (ext : Nat → Nat) (hS : SiftContract ext) (m : Mgr) (hD : DynInv ext m)
     (name : String) (hdecl : m.tbl.vars.contains name = true) :
     ∃ r m', var name m = (.ok r, m') ∧ DynPostG ext (VarDoc name) m r m' := by
-  rw [var_eq]
-  refine tryToReorder_transparent ext hS (varBody name) [] (fun t => t.vars.contains name = true)
+  rw [var_eq_dynVarBody]
+  refine tryToReorder_transparent ext hS (dynVarBody name) [] (fun t => t.vars.contains name = true)
     (VarDoc name) ?_ ?_ (fun _ _ _ _ _ _ hd => hd) m hD (fun _ h => by cases h) hdecl
   · intro m0 hI0 _ hO hpre _
     obtain ⟨j, hj⟩ := (vars_contains_iff m0.tbl name).mp hpre
-    have hb : varBody name m0 = findOrAdd (j : Int) (-1) 1 m0 := by
-      simp [varBody, bind, M.bind', M.get, hj]
+    have hb : dynVarBody name m0 = findOrAdd (j : Int) (-1) 1 m0 := by
+      simp [dynVarBody, bind, M.bind', M.get, hj]
     rw [hb]
     refine (varNode_out m0 hI0 j (hO.lt name j hj)).mono ?_
     intro g m1 hs ⟨hg, _, hd⟩
